@@ -17,7 +17,7 @@ PAY = None
 
 def payloads():
     X = lambda n: "x" * n
-    return dict(P0="", Pa="a", Pab="ab", Pba="ba", Pabc="abc", Ppct="%d", PX1021=X(1021), PX1022=X(1022), PX2046=X(2046), PX1023=X(1023), PX1024=X(1024), PX1025=X(1025),
+    return dict(P0="", Pa="a", Pab="ab", Pba="ba", Pabc="abc", Ppct="%d", PX253=X(253), PX254=X(254), PX255=X(255), PX509=X(509), PX510=X(510), PX511=X(511), PX1021=X(1021), PX1022=X(1022), PX2046=X(2046), PX1023=X(1023), PX1024=X(1024), PX1025=X(1025),
                 I5="abaab", I1022="ab" + X(1020), I1023="ab" + X(1021), I1024="ab" + X(1022), I2047="ab" + X(2045), I2048="ab" + X(2046))
 
 
